@@ -597,6 +597,7 @@ class Check:
         self.pid = pid
         self.tier = tier
         self.decided_groups = set()
+        self.covered_groups = set()
         self.level = level
         self.seed = seed
         self.repo_root = repo_root
@@ -673,6 +674,7 @@ class Check:
                 # the same obligation was decided by another rule group (model evaluation of the function as it is written
                 # now): the form-specific rule not recognising the new form is not an analysis failure
                 self.note(f"{getattr(fn, '__name__', 'rule')} does not recognise the current form ({str(e)[:160]}); the obligation is decided by {covered_by}")
+                self.covered_groups.add(getattr(fn, "__name__", "rule"))
                 return None
             self.analysis_errors.append(f"{getattr(fn, '__name__', 'rule')}: {e}")
             return None
@@ -684,7 +686,7 @@ class Check:
     def finish(self):
         # vacuity guard (only meaningful when every rule group could run)
         for rid, r in self.rules.items():
-            if r["instances"] < r["min"] and not self.analysis_errors and not self.violations:
+            if r["instances"] < r["min"] and not self.analysis_errors and not self.violations and not self.covered_groups:
                 raise AnalysisError(
                     f"rule {rid} matched {r['instances']} instance(s), fewer than the "
                     f"{r['min']} confirmed by hand on the pinned tree: the rule lost its anchors"
